@@ -3,18 +3,30 @@ From Coq Require Import List String ZArith Bool Ascii.
 From C19 Require Import Model Spec Lex LexProofs Proofs Session SessionSpec SessionProofs.
 Import ListNotations.
 
-(* (1) LOAD FORMS.  For EVERY value of the modelled universe inside the guard -- numbers, strings, characters, keywords,
-   self-bound type symbols, proper and dotted lists, vectors, arrays, hash tables, lambdas, nested without bound --
-   evaluating its load form rebuilds exactly the value (structural equality, which is finer than slip's Equal: it also
-   sees the adjustable flag; lambdas are compared as code trees because Lambda.Equal is pointer identity). *)
-Theorem C19_load_form_reloads : forall v, loadable v = true -> reload v = Ok v.
+(* (1) LOAD FORMS.  For EVERY value of the modelled universe inside the guard -- numbers, strings, characters, symbols,
+   proper and dotted lists, vectors (empty or not, adjustable or not, with or without a fill pointer), arrays (zero
+   dimensions included), hash tables (keys and values of every kind, values nested), lambdas, flavor instances (whose
+   instance variables hold any such value), nested without bound -- evaluating its load form rebuilds exactly the value
+   (structural equality, which is finer than slip's Equal: it also sees the adjustable flag and the fill pointer;
+   lambdas are compared as code trees because Lambda.Equal is pointer identity), in every environment that has the
+   constants of the language and knows the flavors of the instances inside the value. *)
+Theorem C19_load_form_evaluates_back : forall v, loadable v = true -> forall e, env_ok e -> insts_in e v = true ->
+  bind (load_form v) (eval e) = Ok v.
+Proof. exact load_form_reloads. Qed.
+Print Assumptions C19_load_form_evaluates_back.
+(* ... in particular a value without instances, in the global environment *)
+Theorem C19_load_form_reloads : forall v, loadable v = true -> no_inst v = true -> reload v = Ok v.
 Proof. exact reload_loadable. Qed.
 Print Assumptions C19_load_form_reloads.
 
-(* the guard is not vacuous: one value nesting every kind *)
-Theorem C19_load_form_guard_nonvacuous : loadable ex_rich = true /\ reload ex_rich = Ok ex_rich.
+(* the guard is not vacuous: one value nesting every kind; an instance nesting lists, a symbol, a table, instances *)
+Theorem C19_load_form_guard_nonvacuous : loadable ex_rich = true /\ no_inst ex_rich = true /\ reload ex_rich = Ok ex_rich.
 Proof. exact ex_rich_loadable. Qed.
 Print Assumptions C19_load_form_guard_nonvacuous.
+Theorem C19_instance_load_form_nonvacuous : loadable ex_inst_value = true /\ insts_in ex_env ex_inst_value = true
+  /\ bind (load_form ex_inst_value) (eval ex_env) = Ok ex_inst_value.
+Proof. exact ex_inst_value_ok. Qed.
+Print Assumptions C19_instance_load_form_nonvacuous.
 
 (* (2) MARGINS.  The pretty printer may only change white space.  Whatever white space (line breaks, indentation)
    a layout puts between the tokens of a form -- non-empty where two tokens would fuse -- the text lexes to the same
@@ -42,10 +54,11 @@ Proof. exact same_reading_sound. Qed.
 Print Assumptions C19_same_reading_sound.
 
 (* (3) SNAPSHOTS.  For EVERY history of definition forms (defvar, defparameter, setq, defconstant, defun, defmacro, in
-   any order, with redefinitions) that the interpreter accepts and whose resulting session is inside the guard:
-   every form of the snapshot loads into an empty session, the loaded session has the same variables (value,
-   documentation, constness) and the same functions and macros (lambda list, documentation, body), and its snapshot
-   is the same list of forms (the fixed point). *)
+   any order, with redefinitions) that the interpreter accepts and whose resulting session is inside the guard
+   (variables and constants holding symbols, lists, tables, lambdas, ...; variables without a value; functions that
+   call functions and use macros of any name): every form of the snapshot loads into an empty session, the loaded
+   session has the same variables (value, documentation, constness) and the same functions and macros (lambda list,
+   documentation, body), and its snapshot is the same list of forms (the fixed point). *)
 Theorem C19_snapshot_roundtrip : forall hist s, run empty_session hist = Ok s -> sess_ok s = true ->
   canon (reload_session s) = canon s /\ snapshot (reload_session s) = snapshot s
   /\ forallb (fun b => b) (snd (load_forms empty_session (snapshot s))) = true.
@@ -57,11 +70,13 @@ Theorem C19_history_keys_unique : forall forms s s', keys_nodup s -> run s forms
 Proof. exact run_keys_nodup. Qed.
 Print Assumptions C19_history_keys_unique.
 
-(* the session guard is not vacuous: a history with redefinitions, setq, values of every kind, a constant, functions
-   that call earlier-named ones, a macro *)
+(* the session guard is not vacuous: a history with redefinitions, setq, values of every kind (a symbol, a table with
+   several entries and list values, a list holding a lambda), a list constant, a variable without a value, functions
+   that call later-named ones, a macro used by an earlier-named function; the macro is written first *)
 Theorem C19_snapshot_guard_nonvacuous : exists s, run empty_session ex_history = Ok s /\ sess_ok s = true
-  /\ List.length (s_vars s) = 6 /\ List.length (s_funs s) = 3 /\ List.length (snapshot s) = 14
-  /\ alookup (s_vars s) "*va*" = Some (mkV (Some (Fix 5)) "my x" false).
+  /\ List.length (s_vars s) = 9 /\ List.length (s_funs s) = 4 /\ List.length (snapshot s) = 19
+  /\ alookup (s_vars s) "*va*" = Some (mkV (Some (Fix 5)) "my x" false)
+  /\ map (fun f => match f with L (_ :: Sym n :: _) => n | _ => "" end) (skipn 15 (snapshot s)) = ["ma"; "fa"; "fb"; "zz"].
 Proof. exact ex_history_ok. Qed.
 Print Assumptions C19_snapshot_guard_nonvacuous.
 
@@ -73,17 +88,18 @@ Theorem C19_lambda_list_verbatim : forall ll doc body,
 Proof. exact lambda_list_verbatim. Qed.
 Print Assumptions C19_lambda_list_verbatim.
 
-(* (3c) INSTANCES as values of variables. What the snapshot writes for a value -- flavor instances included, nested
-   without bound, every instance variable's value going through ppValue again (lists quoted, nested instances as
-   nested forms) -- evaluates back to the value in every environment that knows the flavors.
-   PARTIAL with respect to sessions: (3) is proved for sessions without flavors; for sessions with a flavor and
-   instances the model's defflavor / make-instance / send / snapshot are compared with the implementation and the
-   decidable specification is evaluated on every run (self-check code 3), not proved for all histories. *)
-Theorem C19_instance_value_reloads_partial : forall v, snap_safe_i v = true -> forall e, env_ok e -> insts_in e v = true ->
+(* (3c) VALUES in a snapshot. What the snapshot writes for a value -- a quoted symbol, a quoted list of data, a (list
+   ...) form for a list that holds tables or instances, the load form of a table or a lambda, the (let ((inst ...)))
+   form of a flavor instance with every instance variable's value written the same way again, nested without bound --
+   evaluates back to the value in every environment that has the constants of the language and knows the flavors of the
+   instances. (For sessions: (3) is proved for sessions without flavors; for sessions with flavors and instances the
+   model's defflavor / make-instance / send / snapshot are compared with the implementation and the decidable
+   specification is evaluated on every run, self-check code 3.) *)
+Theorem C19_snapshot_value_evaluates_back : forall v, snap_safe v = true -> forall e, env_ok e -> insts_in e v = true ->
   exists f, pp_value v = Ok f /\ eval e f = Ok v.
-Proof. exact inst_value_reloads. Qed.
-Print Assumptions C19_instance_value_reloads_partial.
-Theorem C19_instance_guard_nonvacuous : snap_safe_i ex_instance = true /\ insts_in ex_env ex_instance = true
+Proof. exact value_reloads. Qed.
+Print Assumptions C19_snapshot_value_evaluates_back.
+Theorem C19_instance_guard_nonvacuous : snap_safe ex_instance = true /\ insts_in ex_env ex_instance = true
   /\ bind (pp_value ex_instance) (eval ex_env) = Ok ex_instance.
 Proof. exact ex_instance_ok. Qed.
 Print Assumptions C19_instance_guard_nonvacuous.
@@ -93,67 +109,7 @@ Theorem C19_flavor_session_nonvacuous :
 Proof. exact ex_flavor_history_ok. Qed.
 Print Assumptions C19_flavor_session_nonvacuous.
 
-(* (4) Outside the guards the faithful model violates the specification: the known findings. *)
-Theorem C19_symbol_unquoted_refuted :
-  loadable (L [Sym "a"; Sym "b"]) = false /\ load_form (L [Sym "a"; Sym "b"]) = Ok (L [Sym "list"; Sym "a"; Sym "b"])
-  /\ reload (L [Sym "a"; Sym "b"]) = Err (EUnbound "a").
-Proof. exact symbol_unquoted_refuted. Qed.
-Print Assumptions C19_symbol_unquoted_refuted.
-Theorem C19_adjustable_lost_refuted :
-  loadable (Vec [Fix 1; Fix 2] T false) = false /\ reload (Vec [Fix 1; Fix 2] T false) = Ok (Vec [Fix 1; Fix 2] T true).
-Proof. exact adjustable_lost_refuted. Qed.
-Print Assumptions C19_adjustable_lost_refuted.
-Theorem C19_empty_vector_refuted : loadable (Vec [] T true) = false /\ reload (Vec [] T true) = Err EType.
-Proof. exact empty_vector_refuted. Qed.
-Print Assumptions C19_empty_vector_refuted.
-Theorem C19_zero_dimension_refuted :
-  reload (Arr [2; 0] [] T true) = Err EType /\ reload (Arr [] [Fix 7] T true) = Err EType
-  /\ loadable (Arr [2; 0] [] T true) = false /\ loadable (Arr [] [Fix 7] T true) = false.
-Proof. exact zero_dimension_refuted. Qed.
-Print Assumptions C19_zero_dimension_refuted.
-Theorem C19_hash_keys_dropped_refuted :
-  loadable (Hash [(Atom "character" "#\c", Fix 1)]) = false /\ reload (Hash [(Atom "character" "#\c", Fix 1)]) = Ok (Hash [])
-  /\ reload (Hash [(L [Fix 1; Fix 2], Fix 1)]) = Ok (Hash []).
-Proof. exact hash_keys_dropped_refuted. Qed.
-Print Assumptions C19_hash_keys_dropped_refuted.
-Theorem C19_hash_values_unevaluated_refuted :
-  loadable (Hash [(Fix 1, L [Fix 1; Fix 2])]) = false /\ reload (Hash [(Fix 1, L [Fix 1; Fix 2])]) = Err ENotFunction
-  /\ reload (Hash [(Fix 1, Sym "abc")]) = Err (EUnbound "abc").
-Proof. exact hash_values_unevaluated_refuted. Qed.
-Print Assumptions C19_hash_values_unevaluated_refuted.
-Theorem C19_snapshot_symbol_refuted :
-  let s := run_or_empty [L [Sym "defvar"; Sym "*sy*"; quote (Sym "abc")]] in
-  sess_ok s = false /\ meets_spec s = false
-  /\ snapshot s = [L [Sym "defvar"; Sym (qual "*sy*")]; L [Sym "setq"; Sym (qual "*sy*"); Sym "abc"]]
-  /\ snd (load_forms empty_session (snapshot s)) = [true; false].
-Proof. exact snapshot_symbol_refuted. Qed.
-Print Assumptions C19_snapshot_symbol_refuted.
-Theorem C19_constant_unquoted_refuted :
-  let s := run_or_empty [L [Sym "defconstant"; Sym "+lc+"; quote (L [Fix 1; Fix 2])]] in
-  sess_ok s = false /\ meets_spec s = false
-  /\ snapshot s = [L [Sym "defconstant"; Sym (qual "+lc+"); L [Fix 1; Fix 2]]]
-  /\ snd (load_forms empty_session (snapshot s)) = [false].
-Proof. exact constant_unquoted_refuted. Qed.
-Print Assumptions C19_constant_unquoted_refuted.
-Theorem C19_unbound_variable_refuted :
-  let s := run_or_empty [L [Sym "defvar"; Sym "*u*"]] in
-  sess_ok s = false /\ meets_spec s = false
-  /\ snapshot s = [L [Sym "defvar"; Sym (qual "*u*")]; L [Sym "setq"; Sym (qual "*u*"); Sym "<unbound>"; Sym "0x00"]].
-Proof. exact unbound_variable_refuted. Qed.
-Print Assumptions C19_unbound_variable_refuted.
-Theorem C19_snapshot_hash_value_refuted :
-  let s := run_or_empty [L [Sym "defvar"; Sym "*h*";
-              L [Sym "let"; L [L [Sym "table"; L [Sym "make-hash-table"]]];
-                 L [Sym "setf"; L [Sym "gethash"; Fix 1; Sym "table"]; quote (L [Fix 1; Fix 2])]; Sym "table"]]] in
-  sess_ok s = false /\ meets_spec s = false /\ snd (load_forms empty_session (snapshot s)) = [true; false].
-Proof. exact snapshot_hash_value_refuted. Qed.
-Print Assumptions C19_snapshot_hash_value_refuted.
-(* make-load-form of an INSTANCE (instance.go InstanceLoadForm) puts the values of the instance variables into the form
-   as they are: with a list in an instance variable the load form cannot be evaluated, while the form the snapshot
-   writes for the same instance can *)
-Theorem C19_instance_load_form_raw_refuted :
-  bind (load_form (Inst "blk" [("sa", L [Fix 1; Fix 2; Fix 3]); ("sb", Fix 2)])) (eval ex_env) = Err ENotFunction
-  /\ bind (pp_value (Inst "blk" [("sa", L [Fix 1; Fix 2; Fix 3]); ("sb", Fix 2)])) (eval ex_env)
-     = Ok (Inst "blk" [("sa", L [Fix 1; Fix 2; Fix 3]); ("sb", Fix 2)]).
-Proof. exact instance_load_form_raw_refuted. Qed.
-Print Assumptions C19_instance_load_form_raw_refuted.
+(* (4) Outside the guards the faithful model violates the specification: the known finding that has a model. *)
+Theorem C19_rank_zero_refuted : reload (Arr [] [Fix 7] T true) = Err EType /\ loadable (Arr [] [Fix 7] T true) = false.
+Proof. exact rank_zero_refuted. Qed.
+Print Assumptions C19_rank_zero_refuted.
